@@ -13,7 +13,7 @@ import ast
 import json
 import os
 
-from .lib import none_default_rebinds
+from .lib import none_default_rebinds, walk_no_nested
 from .srcmodel import unparse
 
 TRUTHY_OK = {
@@ -253,6 +253,31 @@ def check(ctx):
                     t.attr == "step" and isinstance(node, ast.BoolOp) and (u == f"{base} or 1" or (isinstance(node.op, ast.And) and f"{base} < 0" in u))
                 )
                 ctx.ob("TRUTH.slice-bound", node, f"`{u[:60]}`: a slice bound is compared with None (0 is a real bound)", okay, "" if okay else f"`{base}` is tested for truthiness: a bound of 0 (e.g. the empty slice [:0]) is treated like an open end", nontrivial=not okay)
+    # ---------------- PARAM.loop-rebound-returned: a parameter is given a new, unrelated value inside a loop and the
+    # function then returns it -- two meanings share one name (this is how the expression engine's
+    # _compute_rechunk returned a split key as the name of its output)
+    LOOP_REBOUND_OK = {("dask/rewrite.py", "RuleSet._rewrite", "term"): "the loop rewrites the term itself; the rewritten term is the result"}
+    extra_files = ["dask/array/_array_expr/_rechunk.py"] if ctx.prop in ("C23", "C30") else []
+    for rel in list(anchor_files(ctx.prop)) + extra_files:
+        if not model.exists(rel):
+            continue
+        mod = model.module(rel)
+        for qn, f in mod.functions():
+            params = {a.arg for a in f.args.posonlyargs + f.args.args + f.args.kwonlyargs}
+            if not params:
+                continue
+            for loop in walk_no_nested(f):
+                if not isinstance(loop, (ast.For, ast.While)):
+                    continue
+                for st in ast.walk(loop):
+                    if not isinstance(st, ast.Assign):
+                        continue
+                    for tg in st.targets:
+                        if isinstance(tg, ast.Name) and tg.id in params and not any(isinstance(x, ast.Name) and x.id == tg.id for x in ast.walk(st.value)):
+                            later = [r for r in f.body if isinstance(r, ast.Return) and r.value is not None and r.lineno > (loop.end_lineno or 0) and any(isinstance(x, ast.Name) and x.id == tg.id for x in ast.walk(r.value))]
+                            if later:
+                                why = LOOP_REBOUND_OK.get((rel, qn, tg.id))
+                                ctx.ob("PARAM.loop-rebound-returned", st, f"{qn}: parameter `{tg.id}` is rebound to an unrelated value inside a loop and returned after it", why is not None, why or f"`{tg.id}` no longer holds what the caller passed (nor a value derived from it) when it is returned", nontrivial=why is None)
     # ---------------- ARGPOS.named-call
     n_calls = 0
     for rel in anchor_files(ctx.prop):
